@@ -43,6 +43,7 @@ package core
 // storeToTx appends version f (freshly sequenced) to the transaction's list of its key and to the all-store.
 //@ func (*UseCase).storeToTx
 //@   requires inv:    ucInv(u)
+//@   requires held:   tx.wl && u.allStore.wl
 //@   requires tx:     has(u.txStore.store, tx.gid) && u.txStore.store[tx.gid] == tx
 //@   requires fresh:  f.Seq > 0 && f.Seq <= sequence.seq && forall m *core.Node[model.File] :: m.owner != nil ==> m.v.Seq < f.Seq
 //@   ensures  inv:    ucInv(u)
@@ -71,6 +72,12 @@ package core
 // and what is appended is exactly what was persisted.
 //@ func (*UseCase).Store
 //@   requires inv:    ucInv(u)
+//@   requires unlocked: forall t *core.Transaction :: !t.wl && !t.rl
+//@   ensures  unlocked: forall t *core.Transaction :: !t.wl && !t.rl
+// the sequence number is drawn, the record persisted and the version linked while the transaction's and the
+// all-store's locks are held
+//@   hint before Next held:      tx != nil && tx.wl && u.allStore.wl
+//@   hint before Set held:       tx.wl && u.allStore.wl
 //@   requires txid:   f.TxId != ""
 //@   modifies model.File.*, core.Node[model.File].next, core.Node[model.File].prev, core.Node[model.File].link, core.Node[model.File].linkOf, core.Node[model.File].owner, core.Node[model.File].idx, core.Node[model.File].inPool,
 //@            core.List[model.File].elems, core.file.arr, core.file.withoutSearch, core.file.gtx, core.file.gkey, mem[*core.Node[model.File]], backing.owner,
@@ -106,6 +113,10 @@ package core
 
 //@ func (*UseCase).getFileFromTx
 //@   requires tx:     tx != nil && txInv(tx) && (beforeSeq != nil ==> !tx.WithoutSearch)
+//@   requires unlocked: !tx.wl && !tx.rl
+//@   ensures  unlocked: !tx.wl && !tx.rl
+//@   hint before (*file).Latest held:     tx.rl
+//@   hint before (*file).LastBefore held: tx.rl
 //@   ensures  latest: beforeSeq == nil ==> isLatest(tx, key, result)
 //@   ensures  before: beforeSeq != nil ==> isLastBefore(tx, key, *beforeSeq, result)
 
@@ -114,6 +125,8 @@ package core
 // before the filter's sequence number).  A zero sequence number means "no version": ErrNotFound.
 //@ func (*UseCase).Get
 //@   requires inv:      ucInv(u)
+//@   requires unlocked: forall t *core.Transaction :: !t.wl && !t.rl
+//@   ensures  unlocked: forall t *core.Transaction :: !t.wl && !t.rl
 //@   ensures  class:    result1 != nil ==> result1 == fs_db.ErrNotFound
 //@   ensures  found:    result1 == nil ==> result0.Seq != 0
 //@   exitassert ru:     filter.TxId == nil && filter.BeforeSeq == nil ==> isLatest(&u.allStore, key, f) && s == zero(model.File)
@@ -135,6 +148,11 @@ package core
 
 //@ func (*UseCase).DeleteTx
 //@   requires inv:    ucInv(u)
+//@   requires unlocked: forall t *core.Transaction :: !t.wl && !t.rl
+//@   ensures  unlocked: forall t *core.Transaction :: !t.wl && !t.rl
+//@   hint before (*file).PopFront held:    tx.wl && u.allStore.wl
+//@   hint before (*file).PopFront#2 held:  tx.wl && u.allStore.wl
+//@   hint before (*Node).DeleteLink held:  tx.wl && u.allStore.wl
 //@   modifies model.File.*, core.Node[model.File].next, core.Node[model.File].prev, core.Node[model.File].link, core.Node[model.File].linkOf, core.Node[model.File].owner, core.Node[model.File].idx, core.Node[model.File].inPool,
 //@            core.List[model.File].elems, core.List[model.File].base, core.file.arr, core.file.withoutSearch, core.file.gtx, mem[*core.Node[model.File]], mem[*core.file],
 //@            core.Transaction.gid, core.Transaction.tinPool, map[string]*core.file, map[string]*core.Transaction
@@ -198,6 +216,10 @@ package core
 
 //@ func (*UseCase).DeleteOld
 //@   requires inv:    ucInv(u)
+//@   requires unlocked: forall t *core.Transaction :: !t.wl && !t.rl
+//@   ensures  unlocked: forall t *core.Transaction :: !t.wl && !t.rl
+//@   hint before (*file).PopFront held:    tx.wl && u.allStore.wl
+//@   hint before (*Node).DeleteLink held:  tx.wl && u.allStore.wl
 //@   modifies model.File.*, core.Node[model.File].next, core.Node[model.File].prev, core.Node[model.File].link, core.Node[model.File].linkOf, core.Node[model.File].owner, core.Node[model.File].idx,
 //@            core.Node[model.File].inPool, core.List[model.File].elems, core.List[model.File].base, core.file.arr, mem[*core.Node[model.File]]
 //@   ensures  inv:       ucInv(u)
@@ -266,6 +288,13 @@ package core
 
 //@ func (*UseCase).UpdateTx
 //@   requires inv:    ucInv(u)
+//@   requires unlocked: forall t *core.Transaction :: !t.wl && !t.rl
+//@   ensures  unlocked: forall t *core.Transaction :: !t.wl && !t.rl
+//@   hint before (*file).Latest held:      tx.wl && newTx.rl
+//@   hint before (*file).PopBack held:     tx.wl
+//@   hint before (*file).PopFront held:    tx.wl
+//@   hint before (*file).PopFront#2 held:  tx.wl
+//@   hint before (*Node).DeleteLink held:  u.allStore.wl
 //@   requires ids:    oldTxId != newTxId && newTxId != ""
 // the log of what was handed to the version-record repository is ghost state: it is read relative to an
 // empty log at entry (no behaviour depends on it)
